@@ -13,6 +13,7 @@ Two parts:
 from harness import c22_gen as G_
 from harness import c22_exec as X_
 from harness import c22_run as R_
+from harness import c22_shrink as S_
 
 PROP = "C22"
 LEAN_PROPS = "PpciVerif/Props/C22.lean"
@@ -258,11 +259,17 @@ def run_tasks(ctx, tasks, targets, budget=240, workers=4):
     ctx.extra_cov.setdefault("timing_s", {}).update({"reference_interpreter": round(t1 - t0, 1), "ppci_workers": round(t2 - t1, 1)})
     first = {}
 
+    deferred = []
+
     def report(sig, what, case, **detail):
         ctx.count("fail_" + sig.split(":")[0])
         if sig not in first:
             first[sig] = 1
-            ctx.fail(sig, what, case, **detail)
+            tgt, label, cls = sig.split(":", 2)
+            if label == "program" and "labels" in case and not cls.startswith("instantiate-") and len(deferred) < 2:
+                deferred.append((sig, what, case, detail))      # reduced below to the instruction sequence responsible
+            else:
+                ctx.fail(sig, what, case, **detail)
     # the operator matrix first (attribution of pattern failures to their leading opcode)
     order = sorted(range(len(plan)), key=lambda i: 0 if plan[i][0]["kind"] == "ops" else 1)
     for i in order:
@@ -276,6 +283,20 @@ def run_tasks(ctx, tasks, targets, budget=240, workers=4):
         ctx.count("programs" if t["kind"] == "program" else "modules")
         for c in t["calls"][:: max(1, len(t["calls"]) // 50)]:
             ctx.nontrivial(f"{target}:{t['id']}:{c[2]}:{c[1]}")
+    for sig, what, case, detail in deferred:
+        # a failing random program: delta-debug it to the smallest module with the same difference class and name the
+        # failure after the opcodes that are left ("<target>:<op;op;...>:<class>")
+        tgt, _label, cls = sig.split(":", 2)
+        try:
+            d2, calls2, used = S_.shrink(case["module"], case["calls"], tgt, lambda lines: ctx.driver("C22", lines), cls, rounds=40, seconds=150)
+            label = S_.opcode_label(d2) or "program"
+            case = dict(case, module=d2, calls=[[c[0], list(c[1])] for c in calls2], labels=[label] * len(calls2), label=label,
+                        original_module=case["module"], original_calls=case["calls"])
+            what = what + f" [reduced in {used} rounds to calls {[[c[0], list(c[1])] for c in calls2]} of: {G_.to_sexp(d2)[:700]}]"
+            sig = f"{tgt}:{label}:{cls}"
+        except Exception as ex:  # noqa
+            ctx.note(f"reduction of a failing random program failed: {type(ex).__name__}: {ex}"[:300])
+        ctx.fail(sig, what, case, **detail)
     return plan, jobs
 
 
